@@ -3,6 +3,7 @@ package c05
 
 import (
 	"fmt"
+	"strings"
 	"testing"
 	"time"
 
@@ -520,6 +521,112 @@ func TestAddedInertRule(t *testing.T) {
 		}
 		c.ClassIf(sawBlock, "has-block")
 		if sawBlock {
+			c.NonTrivial()
+		}
+	})
+}
+
+// TestSpecificItemsReload: the specific-item table in force is the one of the latest load. A rule with burst 0 is loaded,
+// some traffic runs, the rule is reloaded unchanged except for its table (a key replaced by another, a threshold changed,
+// a key added or removed, or nothing), everything stays idle for longer than the duration, and then every value receives
+// a burst of requests at one instant: exactly min(burst size, the value's threshold per the latest table) are admitted
+// (an idle value is granted its threshold, and never more than threshold+burst inside one instant).
+func TestSpecificItemsReload(t *testing.T) {
+	hx.Check(t, hx.N{Quick: 3000, Thorough: 30000}, func(t *rapid.T, c *hx.Case) {
+		vs := []interface{}{"a", "b", 1, 2.5, true}
+		G := int64(rapid.IntRange(3, 9).Draw(t, "general"))
+		table := map[interface{}]int64{}
+		for i, n := 0, rapid.IntRange(0, 3).Draw(t, "entries"); i < n; i++ {
+			table[vs[rapid.IntRange(0, len(vs)-1).Draw(t, "key")]] = int64(rapid.SampledFrom([]int{0, 0, 1, 2, 4}).Draw(t, "thr"))
+		}
+		mk := func(tb map[interface{}]int64) *hotspot.Rule {
+			cp := map[interface{}]int64{}
+			for k, v := range tb {
+				cp[k] = v
+			}
+			return &hotspot.Rule{ID: "A", Resource: "h", MetricType: hotspot.QPS, ParamIndex: 0, Threshold: G, DurationInSec: 1, SpecificItems: cp}
+		}
+		hx.Reset(hx.Epoch + uint64(rapid.IntRange(0, 999).Draw(t, "t0")))
+		if _, err := hotspot.LoadRules([]*hotspot.Rule{mk(table)}); err != nil {
+			t.Fatalf("load: %v", err)
+		}
+		do := func(v interface{}) bool {
+			e, blk := sentinel.Entry("h", sentinel.WithArgs(v))
+			if e != nil {
+				e.Exit()
+			}
+			return blk == nil
+		}
+		for i, n := 0, rapid.IntRange(0, 6).Draw(t, "before"); i < n; i++ {
+			hx.C.AddMs(uint64(rapid.SampledFrom([]int{0, 1, 300}).Draw(t, "dt")))
+			do(vs[rapid.IntRange(0, len(vs)-1).Draw(t, "v")])
+		}
+		var keys []interface{} // in vs order: no dependence on map order
+		for _, v := range vs {
+			if _, ok := table[v]; ok {
+				keys = append(keys, v)
+			}
+		}
+		var absent []interface{}
+		for _, v := range vs {
+			if _, ok := table[v]; !ok {
+				absent = append(absent, v)
+			}
+		}
+		edit := rapid.IntRange(0, 4).Draw(t, "edit")
+		what := "nothing"
+		switch {
+		case edit == 0 && len(keys) > 0 && len(absent) > 0: // same size: one key replaced by another
+			old := keys[rapid.IntRange(0, len(keys)-1).Draw(t, "old")]
+			nk := absent[rapid.IntRange(0, len(absent)-1).Draw(t, "new")]
+			delete(table, old)
+			table[nk] = int64(rapid.SampledFrom([]int{0, 1, 2, 4}).Draw(t, "thr2"))
+			what = fmt.Sprintf("key %v replaced by %v", old, nk)
+		case edit == 1 && len(keys) > 0:
+			k := keys[rapid.IntRange(0, len(keys)-1).Draw(t, "old")]
+			table[k] = (table[k] + int64(rapid.IntRange(1, 2).Draw(t, "delta"))) % 5
+			what = fmt.Sprintf("threshold of %v changed", k)
+		case edit == 2 && len(absent) > 0:
+			nk := absent[rapid.IntRange(0, len(absent)-1).Draw(t, "new")]
+			table[nk] = int64(rapid.SampledFrom([]int{0, 1, 2, 4}).Draw(t, "thr2"))
+			what = fmt.Sprintf("key %v added", nk)
+		case edit == 3 && len(keys) > 0:
+			k := keys[rapid.IntRange(0, len(keys)-1).Draw(t, "old")]
+			delete(table, k)
+			what = fmt.Sprintf("key %v removed", k)
+		}
+		var err error
+		if rapid.Bool().Draw(t, "perResource") {
+			_, err = hotspot.LoadRulesOfResource("h", []*hotspot.Rule{mk(table)})
+		} else {
+			_, err = hotspot.LoadRules([]*hotspot.Rule{mk(table)})
+		}
+		if err != nil {
+			t.Fatalf("reload: %v", err)
+		}
+		c.Op("general=%d reload: %s -> table %v", G, what, table)
+		c.Class("table-edit: " + strings.SplitN(what, " ", 2)[0])
+		hx.C.AddMs(uint64(rapid.SampledFrom([]int{1001, 1500, 2000, 61000}).Draw(t, "idle")))
+		for _, v := range vs {
+			want := G
+			if s, ok := table[v]; ok {
+				want = s
+			}
+			N := int64(12)
+			if want > N {
+				want = N
+			}
+			got := int64(0)
+			for i := int64(0); i < N; i++ {
+				if do(v) {
+					got++
+				}
+			}
+			if got != want {
+				t.Fatalf("after the reload (%s; table now %v, general threshold %d) and an idle period, %d requests for value %v at one instant: %d admitted, the value's threshold is %d", what, table, G, N, v, got, want)
+			}
+		}
+		if what != "nothing" {
 			c.NonTrivial()
 		}
 	})
